@@ -151,7 +151,7 @@ func run(c jcase) (msg string, payloadLen int) {
 		if err := dh.Handle(context.Background(), r); err != nil {
 			return "Handle returned " + err.Error(), 0
 		}
-		exp = append(exp, lm.EMember{Key: "time", Exp: lm.Exp{Kind: lm.ETime, T: c.instant}})
+		exp = append(exp, lm.EMember{Key: "time", Exp: lm.Exp{Kind: lm.ETimeInZone, T: c.instant}})
 	} else {
 		l := lm.DeriveWithDecoys(logger.New(h), c.chain, c.decoys)
 		c.prime.Run(time.Now(), c.addSource)
